@@ -239,6 +239,10 @@ class SArr(SArrBase):
         if kind == self.kind:
             r = self.copy()
             r.dtype_name = np.dtype(dtype).name
+            bits = {"int8": 8, "int16": 16, "int32": 32}.get(r.dtype_name)
+            if bits is not None and kind == "i" and self.dtype_name != r.dtype_name:
+                half, full, old0 = 2 ** (bits - 1), 2 ** bits, self._elem
+                r._elem = lambda *i: ((old0(*i) + half) % full) - half     # numpy integer casts wrap around
             return r
         old = self._elem
         if self.kind == "i" and kind == "f":
@@ -558,6 +562,11 @@ class SArr(SArrBase):
             raise Unsupported("assignment of real values into an integer array")
         old = self._elem
         kind = self.kind
+        bits = {"int8": 8, "int16": 16, "int32": 32}.get(self.dtype_name)
+        if bits is not None and kind == "i":
+            # numpy casts silently on assignment: values wrap around modulo 2**bits
+            half, full, ve0 = 2 ** (bits - 1), 2 ** bits, ve
+            ve = lambda *i: ((ve0(*i) + half) % full) - half  # noqa: E731
 
         def el(*idx):
             cs, sub = [], []
